@@ -47,6 +47,9 @@ class Registry:
         self.axiom_notes: list[str] = []
         self.lemmas: list = []
         self.disabled: set[str] = set()
+        # module-level lists / dicts of the reference tree that are constant tables (filled at import time, never written
+        # by the functions under contract): registries built by decorators and the static presentation contexts
+        self.constant_globals = {"_PACKET_TYPE_REGISTRY", "_COMMAND_TYPE_REGISTRY", "_FLOOR_TYPE_REGISTRY", "_EPM_CONTEXTS", "_ISD_KEY_CONTEXTS"}
 
     # ---------------------------------------------------------------- registration (decorators)
     def contract(self, target, props=(), assumed=False, note="", inline=False):
@@ -62,6 +65,17 @@ class Registry:
         def deco(fn):
             s = Spec(target, fn, props, False, note, True)
             s.label = f"{target}#{variant}"
+            self.contracts[s.label] = s
+            return fn
+
+        return deco
+
+    def lemma(self, name, props=(), note=""):
+        """A ghost lemma over contracts: fn(c) states assumptions with c.assume and goals with c.prove; no code runs."""
+
+        def deco(fn):
+            s = Spec(f"lemma:{name}", fn, props, False, note, True)
+            s.label = f"lemma:{name}"
             self.contracts[s.label] = s
             return fn
 
@@ -337,6 +351,7 @@ class ContractCtx:
         self._expect_covers = []
         self._no_return = False
         self._replay_meta = {}
+        self.label = fi.dotted if fi is not None else "lemma"
         self.ctx = I.ctx
 
     @property
@@ -406,6 +421,10 @@ class ContractCtx:
 
     def assume(self, cond):
         self.I.ctx.assume(_conj(self.I, cond))
+
+    def prove(self, label, cond):
+        """(lemmas) obligation: the assumptions made so far entail cond"""
+        self.I.ctx.prove(f"{self.label}/{label}", _conj(self.I, cond))
 
     def inline_instead(self):
         """Call mode: do not use this contract at this call site, execute the callee's body."""
